@@ -241,6 +241,7 @@ var rootstoreBypassTable = map[string]string{
 	"net.(*Peer).retryReplicators":                 "replicator retry bookkeeping in the peer store",
 	"net.(*Peer).retryReplicator":                  "replicator retry bookkeeping in the peer store",
 	"net.(*Peer).setReplicatorAsRetrying":          "replicator retry bookkeeping in the peer store",
+	"net.(*Peer).resetRetryingReplicators":         "replicator retry bookkeeping in the peer store (start-up reset of the persisted retrying state)",
 	"net.(*server).processDocSyncItem":             "doc-sync answers with the committed heads of a document",
 	"internal/db/fetcher.(*VersionedFetcher).Init": "the versioned fetcher's private in-memory root",
 	"internal/db.(*DB).publishDocUpdateEvent":      "re-announces committed heads after an ACP grant",
